@@ -685,15 +685,26 @@ func H07SameElem(a, b ssa.Value) bool {
 
 // H07ElemOf is Loop.ElemOf with H07LoopColl as collection.
 func H07ElemOf(l *Loop, v ssa.Value) bool {
-	if l.RangeColl() != nil {
-		return l.ElemOf(v)
+	if l.RangeColl() != nil && l.ElemOf(v) {
+		return true
 	}
 	coll := H07LoopColl(l)
 	if coll == nil {
 		return false
 	}
 	c, i, ok := H07ElemRef(v)
-	return ok && (c == coll || Equiv(c, coll)) && l.isIndexVar(i)
+	return ok && (c == coll || Equiv(c, coll) || h07sameLookup(c, coll)) && l.isIndexVar(i)
+}
+
+// h07sameLookup: a and b are lookups of the same map (same field of the same object) at the same key:
+// `for i := range m[k] { … m[k][i] … }` looks the list up again for every element.
+func h07sameLookup(a, b ssa.Value) bool {
+	la, ok1 := Resolve(a).(*ssa.Lookup)
+	lb, ok2 := Resolve(b).(*ssa.Lookup)
+	if !ok1 || !ok2 || la.CommaOk || lb.CommaOk {
+		return false
+	}
+	return (la.X == lb.X || Equiv(la.X, lb.X)) && (la.Index == lb.Index || Equiv(la.Index, lb.Index))
 }
 
 // ---------------------------------------------------------------------------------------------
